@@ -82,9 +82,15 @@ def _usable(where, fn, what):
 def mutate_bytes(draw, base):
     w = bytearray(base)
     for _ in range(draw(st.integers(1, 4))):
-        k = draw(st.integers(0, 8))
+        k = draw(st.integers(0, 10))
         n = len(w)
-        if k == 0 and n:
+        if k >= 9 and n:
+            # overwrite a field-sized slot with a boundary value (no length change)
+            sz = min(n, draw(st.sampled_from([1, 2, 2, 4])))
+            i = draw(st.integers(0, n - sz))
+            v = draw(st.sampled_from([0, 1, 0x7F, 0x80, 0xFF, 0x0FFF, 0x1000, 0x7FFF, 0x8000, 0xFFFF, 0x7FFFFFFF, 0x80000000, 0xFFFFFFFF]))
+            w[i:i + sz] = (v & ((1 << (8 * sz)) - 1)).to_bytes(sz, "big")
+        elif k == 0 and n:
             w[draw(st.integers(0, n - 1))] ^= 1 << draw(st.integers(0, 7))
         elif k == 1 and n:
             del w[draw(st.integers(0, n - 1)):]
@@ -190,7 +196,7 @@ def wire_message_cases(draw):
         origin = desc["origin"]
         try:
             base = m.to_wire(max_size=65535, want_shuffle=False)
-        except dns.exception.DNSException:
+        except Exception:  # seed text only; the oracle for this call is in run_*
             base = b"\x00" * 12
         if mode == 1 and draw(st.booleans()):
             # signed
@@ -200,7 +206,7 @@ def wire_message_cases(draw):
             m.use_tsig(dns.tsig.Key(dns.name.from_text("key.example."), b"0123456789abcdef"))
             try:
                 base = m.to_wire(max_size=65535, want_shuffle=False)
-            except dns.exception.DNSException:
+            except Exception:  # seed text only; the oracle for this call is in run_*
                 pass
         w = base if mode == 5 else draw(mutate_bytes(base))
     b = st.booleans()
@@ -252,13 +258,24 @@ def run_wire_rdata(case):
 @st.composite
 def wire_rdata_cases(draw):
     name = R.type_choice(draw, R.ALL_TYPES)
-    mode = draw(st.integers(0, 2))
+    mode = draw(st.integers(0, 6))
     pre = draw(st.one_of(st.just(b""), st.just(b"\x03www\x07example\x00\x01a\xc0\x04"), st.binary(max_size=12)))
     if mode == 0:
         w = draw(st.binary(max_size=40))
     else:
         wire, _ = R.build(draw, name, {})
-        w = draw(mutate_bytes(wire))
+        if mode == 1:
+            w = wire  # well-formed as generated (boundary values come from the grammar)
+        elif mode <= 3 and len(wire) >= 1:
+            # keep the structure, overwrite one fixed-width field-sized slot with a boundary value:
+            # reaches values a field's wire width allows but its Python type may not
+            k = draw(st.sampled_from([1, 2, 2, 2, 4]))
+            i = draw(st.integers(0, max(0, len(wire) - k)))
+            v = draw(st.sampled_from([0, 1, 0x0F, 0x10, 0x7F, 0x80, 0xFE, 0xFF, 0x0FFF, 0x1000, 0x7FFF, 0x8000,
+                                      0xFFFE, 0xFFFF, 0x7FFFFFFF, 0x80000000, 0xFFFFFFFF])) & ((1 << (8 * k)) - 1)
+            w = wire[:i] + v.to_bytes(k, "big") + wire[i + k:]
+        else:
+            w = draw(mutate_bytes(wire))
     origin = draw(st.sampled_from([None, [b""], [b"example", b""]]))
     return {"type": name, "rdclass": R.rdclass_for(name, draw), "rdtype": R.TYPECODES[name], "wire": w.hex(), "pre": pre.hex(),
             "origin": None if origin is None else G.hexl(origin)}
@@ -385,7 +402,7 @@ def text_rdata_cases(draw):
         wire, _ = R.build(draw, name, {})
         try:
             base = dns.rdata.from_wire(rdclass, rdtype, wire, 0, len(wire)).to_text()
-        except dns.exception.DNSException:
+        except Exception:  # seed text only; the oracle for this call is in run_*
             base = None
     t = draw(soup(base))
     return {"type": name, "rdclass": rdclass, "rdtype": rdtype, "text": t, "origin": draw(st.sampled_from(["root", "none", "ex"])),
@@ -528,7 +545,7 @@ def text_message_cases(draw):
     desc = draw(MG.message(big_ok=False, sections_max=2))
     try:
         base = MG.build(desc).to_text()
-    except dns.exception.DNSException:
+    except Exception:  # seed text only; the oracle for this call is in run_*
         base = "id 1\nopcode QUERY\nrcode NOERROR\nflags RD\n;QUESTION\nexample. IN A\n"
     k = draw(st.integers(0, 3))
     t = base if k == 0 else draw(soup(base))
